@@ -85,8 +85,8 @@ ASSUMPTIONS = [
 ]
 
 PER_CLASS_QUICK = 4
-FIDELITY_SHARE_QUICK = 0.08  # share of the (distinct) translated programs executed through the IR in the quick tier
-FIDELITY_SHARE_THOROUGH = 0.2
+FIDELITY_SHARE_QUICK = 0.06  # share of the (distinct) translated programs executed through the IR in the quick tier
+FIDELITY_SHARE_THOROUGH = 0.1
 NBUCKETS_QUICK = 8
 NBUCKETS_THOROUGH = 16
 
@@ -106,6 +106,11 @@ def _tol(dt):
     return 2e-4 if np.dtype(dt).itemsize <= (8 if np.issubdtype(np.dtype(dt), np.complexfloating) else 4) else 1e-9
 
 
+def _wide(dt):
+    dt = np.dtype(dt)
+    return dt.itemsize >= (16 if np.issubdtype(dt, np.complexfloating) else 8)
+
+
 def _rand_leaf(rng, shape, dt, mode):
     cplx = np.issubdtype(np.dtype(dt), np.complexfloating)
     a = common.dyadic(rng, shape, bits=3, scale=4.0)
@@ -116,7 +121,9 @@ def _rand_leaf(rng, shape, dt, mode):
     elif mode == "large":
         a = a * 1024.0
     elif mode == "tiny":  # magnitudes far below any plausible threshold ("flush small values", eps-regularised divisions)
-        a = a * (2.0 ** -120 if np.dtype(dt).itemsize >= (16 if cplx else 8) else 2.0 ** -100)
+        a = a * (2.0 ** -120 if _wide(dt) else 2.0 ** -60)  # (single precision: stay clear of denormals)
+    elif mode == "small":
+        a = a * (2.0 ** -60 if _wide(dt) else 2.0 ** -30)
     elif mode == "basis":
         b = np.zeros(int(np.prod(shape)) if len(shape) else 1, dtype=a.dtype)
         if b.size:
@@ -184,13 +191,18 @@ def probe(fn, shp, dt, rng, field, mode="random"):
     if mode == "cancel":
         y = [-xi for xi in x]
         a = b = 1.0
+    elif mode in ("tiny", "small"):
+        # homogeneity across 18 orders of magnitude: x, y below a hidden threshold, a x + b y above it
+        y = [_rand_leaf(rng, s, dt, mode) for s in shapes]
+        up = (60 if mode == "tiny" else 50) if _wide(dt) else (40 if mode == "tiny" else 25)
+        a, b = 2.0 ** up * _scalar(rng, cplx_scalars), _scalar(rng, cplx_scalars)
     else:
         a, b = _scalar(rng, cplx_scalars), _scalar(rng, cplx_scalars)
     z = [(a * xi + b * yi).astype(dt) for xi, yi in zip(x, y)]
     Ax, Ay, Az = _apply(fn, shp, x), _apply(fn, shp, y), _apply(fn, shp, z)
     rhs = [a * p + b * q for p, q in zip(Ax, Ay)]
     tol = max(_tol(dt), _tol(Ax[0].dtype) if Ax and Ax[0].size else 0.0)
-    d = _lin_defect(Az, rhs, nan_ok=(mode == "nan"), relative=(mode == "tiny"))
+    d = _lin_defect(Az, rhs, nan_ok=(mode == "nan"), relative=(mode in ("tiny", "small")))
     nontrivial = any(np.any(np.asarray(p) != 0) for p in Ax)
 
     def enc(ls):
@@ -241,7 +253,7 @@ def oracle_for(rng):
     def oracle(case):
         A, fn, shp, dt = _view_fn(case["cls"], case["config"], case["view"])
         fld = tr.field_of(A)
-        for mode in ("random", "negative", "large", "basis", "cancel", "ones", "tiny", "random", "random", "nan"):
+        for mode in ("random", "negative", "large", "basis", "cancel", "ones", "tiny", "small", "random", "random", "nan"):
             try:
                 bad, _ = probe(fn, shp, dt, rng, fld, mode)
             except Exception as e:  # noqa: BLE001
@@ -266,16 +278,20 @@ def generate(ctx):
     ops.KNOWN_IDS = {k for k in (KNOWN_SUM,) if ctx.is_known(k)}
     probe_time = [0.0]
 
-    def on_view(rec, A, fn, shp, dt):
-        """numerical probe of this view on the real operator, while the operator is alive (results are reported by
-        correspond()).  thorough tier: every eval view of the whole grid, half of the adj views, an eighth of the rest."""
+    def on_view(rec, A, fn, shp, dt, phase="after"):
+        """numerical probe of this view on the real operator, while the operator is alive and BEFORE it is traced (results
+        are reported by correspond()).  thorough tier: every eval view of the whole grid, half of the adj views, an eighth
+        of the rest - and, after translation, every view whose program was not accepted."""
         import time
 
-        if ctx.thorough and rec.get("ok", False):
-            keep = 1.0 if rec["view"] == "eval" else 0.5 if rec["view"] == "adj" else 0.125
-            if ctx.rng.random() > keep:
-                rec["probe"] = None
-                return
+        if phase == "before":
+            if ctx.thorough:
+                keep = 1.0 if rec["view"] == "eval" else 0.5 if rec["view"] == "adj" else 0.125
+                if ctx.rng.random() > keep:
+                    rec["probe"] = None
+                    return
+        elif rec.get("probe") is not None or rec.get("ok", False):
+            return  # probed already, or left out by the thorough sampling and the program was accepted
         t = time.time()
         try:
             bad, nontrivial = probe(fn, shp, dt, ctx.rng, tr.field_of(A), "random")
@@ -309,6 +325,12 @@ def generate(ctx):
             ref = _apply(fn, shp, x)
             got = [np.asarray(v) for v in tb.ir_eval(prog, x)]
             d = _lin_defect(got, ref)
+            if rec.get("ok") and d == d:
+                # an accepted program evaluated at 0 with the real primitives must give exactly 0 (checks the zero flags
+                # of the literals, which only the translator decides)
+                z0 = tb.ir_eval(prog, [np.zeros(s, dt) for s in ops.leaf_shapes(shp)])
+                if any(np.any(np.asarray(v) != 0) for v in z0):
+                    d = float("inf")
             tol = max(_tol(dt), _tol(ref[0].dtype) if ref and ref[0].size else 0.0)
             rec["fidelity"] = {"defect": d, "tol": tol, "neqns": len(prog.eqns), "special": special, "folded": prog.folded, "inlined": prog.inlined,
                                "unrolled": prog.unrolled, "nontrivial": any(np.any(np.asarray(p) != 0) for p in ref)}
@@ -552,7 +574,31 @@ def _jax_blocks():
     c3 = jnp.asarray(np.array([0.5, -1.0, 2.0, 0.25, -0.75, 1.5]))
     idx = jnp.asarray(np.array([4, 0, 2, 2, 5, 1]))
     mask = jnp.asarray(np.array([True, False, True, True, False, True]))
+
+    # call-like primitives the translator inlines: custom_jvp / custom_vjp (primal function), remat, nested jit
+    @jax.custom_jvp
+    def cj_lin(x):
+        return 2.0 * x - jnp.roll(x, 1)
+
+    cj_lin.defjvp(lambda p, t: (cj_lin(p[0]), cj_lin(t[0])))
+
+    @jax.custom_vjp
+    def cv_lin(x):
+        return 3.0 * x[::-1]
+
+    cv_lin.defvjp(lambda x: (3.0 * x[::-1], None), lambda _, g: (3.0 * g[::-1],))
+
+    @jax.custom_jvp
+    def cj_affine(x):  # the primal function is affine although its declared tangent map is linear
+        return x + 0.5
+
+    cj_affine.defjvp(lambda p, t: (cj_affine(p[0]), t[0]))
+
     lin = {
+        "custom_jvp": cj_lin,
+        "custom_vjp": cv_lin,
+        "remat": jax.checkpoint(lambda x: x - 0.5 * jnp.roll(x, -1)),
+        "nested_jit": jax.jit(lambda x: jax.jit(lambda v: v[::-1] + v)(x) * 0.5),
         "neg": lambda x: -x,
         "scale": lambda x: 2.5 * x,
         "cmul": lambda x: c3.astype(x.dtype) * x,
@@ -581,6 +627,9 @@ def _jax_blocks():
         "cond_const": lambda x: jax.lax.cond(c3[0] > 0, lambda v: 2 * v, lambda v: v + 1, x),
     }
     nonlin = {
+        "custom_jvp_affine": cj_affine,
+        "relu_custom_jvp": lambda x: jax.nn.relu(x.real).astype(x.dtype),
+        "remat_abs": jax.checkpoint(lambda x: jnp.abs(x).astype(x.dtype)),
         "abs": lambda x: jnp.abs(x).astype(x.dtype),
         "clip": lambda x: jnp.maximum(x.real, 0.0).astype(x.dtype),
         "offset": lambda x: x + 1.0,
@@ -610,7 +659,7 @@ def _synthetic_jax(ctx, model):
 
     lin, nonlin = _jax_blocks()
     rng = ctx.rng
-    n = ctx.n(40, 400)
+    n = ctx.n(40, 250)
     for k in range(n):
         cplx = bool(rng.integers(0, 2))
         dt = np.complex128 if cplx else np.float64
@@ -626,7 +675,7 @@ def _synthetic_jax(ctx, model):
             return x
 
         try:
-            prog = ir.translate(ir.trace(f, [jnp.zeros((6,), dt)]))
+            prog = ir.translate(ir.trace(f, [jnp.zeros((6,), dt)]), keep=True)
         except ir.NotTranslatable as e:
             ctx.count(f"synthetic-jax-not-translatable:{e.prim}")
             ctx.case({"synthetic_jax": names, "complex": cplx}, None)
@@ -636,6 +685,17 @@ def _synthetic_jax(ctx, model):
             raise common.Infra(f"mirror vs Lean on synthetic jax function {names}")
         tag = got["tag"]
         fld = "C" if cplx else "R"
+        # fidelity of the translation: the IR executed with the real primitives computes f
+        import jaxpr_table as tb
+
+        xr = _rand_leaf(rng, (6,), dt, "random")
+        with np.errstate(all="ignore"):
+            dfid = _lin_defect([np.asarray(v) for v in tb.ir_eval(prog, [xr])], [np.asarray(f(jnp.asarray(xr)))], nan_ok=True)
+        ctx.count("synthetic-jax-fidelity-checked")
+        if not dfid <= 1e-9:
+            ctx.disagree("jaxpr.translate.fidelity", {"blocks": names, "complex": cplx, "x": [complex(v).__repr__() for v in xr]}, f"defect {dfid}", "IR == function",
+                         note="the translated synthetic function does not compute what the function computes")
+        prog.exec = None
         worst = None
         for mode in ("random", "negative", "basis"):
             bad, _ = probe(f, (6,), dt, rng, fld, mode)
@@ -675,7 +735,8 @@ def _fidelity(ctx):
 
 # --- the trusted primitive table, entry by entry (harness/jaxpr_table.py) -----------------------------------------
 
-TABLE_INSITU_QUICK = 220
+TABLE_INSITU_QUICK = 180
+TABLE_INSITU_THOROUGH = 2000
 
 
 def _table_validation(ctx):
@@ -719,7 +780,8 @@ def _table_validation(ctx):
     insts = list(_STATE.get("instances", {}).values())
     lin = [i for i in insts if i["cls"] in tb.LINEAR_CLASSES]
     ctx.count("table-insitu-instances-recorded", len(lin))
-    if not ctx.thorough and len(lin) > TABLE_INSITU_QUICK:
+    limit = TABLE_INSITU_THOROUGH if ctx.thorough else TABLE_INSITU_QUICK
+    if len(lin) > limit:
         # round robin over primitive names (rare names first), seeded order inside a name
         by = {}
         for i in lin:
@@ -728,10 +790,10 @@ def _table_validation(ctx):
             rng.shuffle(v)
         order, k = [], 0
         names = sorted(by, key=lambda n: (len(by[n]), n))
-        while len(order) < TABLE_INSITU_QUICK:
+        while len(order) < limit:
             took = False
             for n in names:
-                if k < len(by[n]) and len(order) < TABLE_INSITU_QUICK:
+                if k < len(by[n]) and len(order) < limit:
                     order.append(by[n][k])
                     took = True
             if not took:
@@ -740,6 +802,18 @@ def _table_validation(ctx):
         lin = order
     for inst in lin:
         one("insitu", inst.get("user", "?"), inst)
+    h = ctx.hist
+    ctx.extra["table_validation"] = {
+        "negative_controls_detected": h.get("table-negative-control:detected", 0),
+        "coverage_instances_ok": h.get("table-coverage:ok", 0),
+        "insitu_instances_recorded": len(insts),
+        "insitu_linear_class_instances": h.get("table-insitu-instances-recorded", 0),
+        "insitu_validated_ok": h.get("table-insitu:ok", 0),
+        "insitu_limit": limit,
+        "skipped": {k: v for k, v in h.items() if k.startswith(("table-coverage:skipped", "table-insitu:skipped"))},
+        "defects": h.get("table-coverage:defect", 0) + h.get("table-insitu:defect", 0),
+        "entries_validated": sorted(k.split(":", 1)[1] for k in h if k.startswith("table-entry-validated:")),
+    }
 
 
 def correspond(ctx, model):
@@ -877,7 +951,7 @@ def replay(ctx, model, case):
         z = [(a * p + b * q).astype(dt) for p, q in zip(x, y)]
         lhs = _apply(fn, shp, z)
         rhs = [a * p + b * q for p, q in zip(_apply(fn, shp, x), _apply(fn, shp, y))]
-        d = _lin_defect(lhs, rhs, nan_ok=(c.get("mode") == "nan"), relative=(c.get("mode") == "tiny"))
+        d = _lin_defect(lhs, rhs, nan_ok=(c.get("mode") == "nan"), relative=(c.get("mode") in ("tiny", "small")))
         fails = d > 8 * _tol(dt)
         print("replay:", "property FAILS on implementation" if fails else "no failure at this input", {"defect": d})
         if fails:
